@@ -68,6 +68,13 @@ for fs_, nm in [(0, 'true'), (1, 'false'), (2, '[true]'), (3, '[false]'), (4, '[
     OBS.append(Ob(['C11', 'C15', 'C03'], 'parse_array_filter_%d' % fs_, 'jd_fcont', 'harness/jd_cont.c', 'h_parse_array_filter', defs=['UNIT_H="jd_fcont.h"', 'NB=3', 'FSHAPE=%d' % fs_], unwind=6, fs='none', cap=400, hunwind=12,
         desc='array input under the filter %s (children cut): array created iff admitted, each element parsed iff the element filter allows it else skipped, slots only for kept elements, same token discipline / limit / codes as the reference' % nm,
         bound="'[' + all continuations of 3 bytes, all limits, every child behaviour allowed by the contract"))
+UNITS += [Unit('jd_fobj', 'wrappers/jd.cpp', defs=CONT + ['ARENA_N=4'], cuts={'CUT_PV_ALL?': r'12parseVariantINS1_14AllowAllFilterE', 'CUT_PV_FILTER': r'12parseVariantINS0_21DeserializationOption6FilterE', 'CUT_SV': r'11skipVariantE', 'CUT_PKEY': r'JsonDeserializerI7VReaderE8parseKeyEv', 'CUT_SKEY?': r'JsonDeserializerI7VReaderE7skipKeyEv',
+    # (the zero-terminated getMember instantiation is what Filter::operator[] itself uses on the filter document: it stays real)
+    'CUT_GETMEMBER_SIZED?': r'(?:^|@)_ZNK\w*10ObjectData9getMemberINS1_17JsonStringAdapterE', 'CUT_SB_SAVE': r'13StringBuilder4saveEv$', 'CUT_ADD_MEMBER': r'10ObjectData9addMemberIPNS1_10StringNodeE', 'CUT_VCLEAR': r'11VariantData5clearEPNS1_15ResourceManagerE$'})]
+for fs_, nm in [(0, 'true'), (1, '{"k":true}'), (2, '{"x":true}'), (3, '{}'), (4, '{"*":true}')]:
+    OBS.append(Ob(['C11', 'C15', 'C03'], 'parse_object_filter_%d' % fs_, 'jd_fobj', 'harness/jd_cont.c', 'h_parse_object_filter', defs=['UNIT_H="jd_fobj.h"', 'NB=2', 'FSHAPE=%d' % fs_], unwind=5, fs='none', cap=800, hunwind=12, objbits=12,
+        desc='object input under the filter %s (key scanner, lookup/creation and values cut; every key is "k"): member parsed iff its filter allows it else skipped without lookup or allocation; same token discipline / limit / codes' % nm,
+        bound="'{' + all continuations of 2 bytes, all limits, every contract-allowed callee behaviour"))
 # other input kinds (C03: the result depends on the bytes, not on the reader): the same harnesses on the library's own
 # zero-terminated Reader<const char*> (READER=1, buffer exactly sized up to its terminator) and BoundedReader (READER=2)
 for rd, nm in [(1, 'zt'), (2, 'bounded')]:
